@@ -26,6 +26,13 @@ def check_c17(tier, seed):
             checks_ns.sample_edges(run, edges)
             for t in targets:
                 run.replay(edges, t)
+        # (2b) open files and directory handles behave alike on both OS types (handle universes of C02)
+        hedges = run.generate("handles", 2 if q else 3, "handles-win")
+        for t in ("memfs-win", "orefafs-win"):
+            run.replay(hedges, t)
+        dedges = run.generate("dirh", 3 if q else 4, "dirh-win")
+        for t in ("memfs-win", "orefafs-win"):
+            run.replay(dedges, t, names="a,b,c,d")
         # (3) volume management
         vedges = run.sc.path("vol.ndjson")
         r = vlib.run_tlc(run.sc, "MCvol", "MCvol.cfg", env={"VERIF_MAXLEN": 3 if q else 5, "VERIF_EDGES": vedges}, workers=8)
